@@ -49,8 +49,16 @@ pub fn open_dump(args: &[String]) -> i32 {
 }
 
 pub fn open_dump_one(p: &str, opts: &Opts) -> String {
+    match open_dump_parts(p, opts) {
+        Ok((d, c)) => format!("open:ok {} {}", d, c),
+        Err(e) => e,
+    }
+}
+
+/// Ok((dump text, check status)) or Err(canonical failure)
+pub fn open_dump_parts(p: &str, opts: &Opts) -> Result<(String, String), String> {
     match open_db(p, opts) {
-        Err(e) => format!("open:{}", e),
+        Err(e) => Err(format!("open:{}", e)),
         Ok(db) => {
             let r = guarded(|| {
                 let tx = db.tx(false).map_err(|e| err_name(&e))?;
@@ -61,12 +69,12 @@ pub fn open_dump_one(p: &str, opts: &Opts) -> String {
                     Ok(()) => "check:ok".to_string(),
                     Err(e) => format!("check:{}", err_name(&e)),
                 };
-                Ok::<String, String>(format!("open:ok {} {}", d, c))
+                Ok::<(String, String), String>((d, c))
             });
             match r {
-                Ok(Ok(s)) => s,
-                Ok(Err(e)) => format!("open:ok tx:{}", e),
-                Err(p) => format!("open:ok {}", p),
+                Ok(Ok(x)) => Ok(x),
+                Ok(Err(e)) => Err(format!("open:ok tx:{}", e)),
+                Err(p) => Err(format!("open:ok {}", p)),
             }
         }
     }
@@ -204,5 +212,32 @@ pub fn grow(args: &[String]) -> i32 {
         Ok(Err(e)) => println!("grow:err:{}", e),
         Err(p) => println!("grow:{}", p),
     }
+    0
+}
+
+/// damage <image> <mutfile> <scratch> [opts]: for every mutation line "<abs_offset> <hexbytes>" copy the
+/// image, overwrite the bytes, open it with the library and print "<line no> <open result> <dump hash> <check>"
+pub fn damage(args: &[String]) -> i32 {
+    let image = std::fs::read(&args[0]).unwrap();
+    let muts = std::fs::read_to_string(&args[1]).unwrap();
+    let scratch = &args[2];
+    let opts = parse_opts(&args[3..]);
+    for (i, line) in muts.lines().enumerate() {
+        let w: Vec<&str> = line.split_whitespace().collect();
+        if w.len() < 2 {
+            continue;
+        }
+        let off: usize = w[0].parse().unwrap();
+        let bytes = unhex(w[1]);
+        let mut img = image.clone();
+        img[off..off + bytes.len()].copy_from_slice(&bytes);
+        std::fs::write(scratch, &img).unwrap();
+        let line = match open_dump_parts(scratch, &opts) {
+            Ok((d, c)) => format!("{} ok {:016x} {}", i, crate::run::fnv64(d.as_bytes()), c),
+            Err(e) => format!("{} {}", i, e.replace(' ', "_")),
+        };
+        println!("{}", line);
+    }
+    let _ = std::fs::remove_file(scratch);
     0
 }
